@@ -5,6 +5,7 @@
  *   setstr <key> <value>       kdump_set_attr STRING
  *   setnum <key> <n>           kdump_set_attr NUMBER
  *   clear <key>                kdump_set_attr NIL
+ *   setblob <key> <hex>        kdump_set_attr BLOB (a new blob with these bytes)
  *   get <key>                  kdump_get_attr (value not shown)
  *   read <as> <addr> <len>     kdump_read
  *   rdstr <as> <addr>          kdump_read_string
@@ -33,7 +34,7 @@ static void answer(const char *op, kdump_status st)
 
 int main(void)
 {
-	static char line[1 << 14], key[512], val[4096];
+	static char line[1 << 15], key[512], val[1 << 14];
 	uint64_t a, n; unsigned as;
 	setvbuf(stdout, NULL, _IOLBF, 0);
 	while (fgets(line, sizeof line, stdin)) {
@@ -65,6 +66,13 @@ int main(void)
 			at.type = KDUMP_NUMBER; at.val.number = n;
 			st = kdump_set_attr(ctx, key, &at);
 			answer("set", st);
+		} else if (sscanf(line, "setblob %511s %16383s", key, val) == 2) {
+			size_t len = strlen(val) / 2, i; unsigned char *b = __real_malloc(len + 1);
+			for (i = 0; i < len; ++i) { unsigned x; sscanf(val + 2 * i, "%2x", &x); b[i] = x; }
+			at.type = KDUMP_BLOB; at.val.blob = kdump_blob_new_dup(b, len);
+			st = kdump_set_attr(ctx, key, &at);
+			answer("set", st);
+			__real_free(b);
 		} else if (sscanf(line, "clear %511s", key) == 1) {
 			at.type = KDUMP_NIL;
 			st = kdump_set_attr(ctx, key, &at);
